@@ -11,7 +11,8 @@ SECTIONS = ['TIDS', 'BEFORE', 'SITE_EXEC', 'ASM_EXEC', 'AFTER']
 NSIG = 32
 
 
-def gen(seed, n=4, waves=1, k=20, perturb=True, signals=False, wait_external=False, self_signals=(), spin=200):
+def gen(seed, n=4, waves=1, k=20, perturb=True, signals=False, wait_external=False, self_signals=(), spin=200,
+        exit_code=None, panic_exit=False):
     rng = random.Random(seed)
     t_total = n * waves
     lines = []
@@ -123,6 +124,10 @@ def gen(seed, n=4, waves=1, k=20, perturb=True, signals=False, wait_external=Fal
     if signals:
         for s in (10, 12, 1, 3, 15, 28, 14, 23, 17, 29, 26, 27, 2):
             emit(f'    install({s});')
+    emit('    if let Ok(gate) = std::env::var("VERIF_GATE") {')
+    emit('        // gate for attach scenarios: sleep-poll until the monitor creates the file')
+    emit('        while !std::path::Path::new(&gate).exists() { std::thread::sleep(std::time::Duration::from_millis(3)); }')
+    emit('    }')
     side['main_first_line'] = emit('    let mut i = 0;')
     emit('    while i < N { spawn(i); i += 1; }')
     emit('    loop {')
@@ -148,6 +153,10 @@ def gen(seed, n=4, waves=1, k=20, perturb=True, signals=False, wait_external=Fal
         emit('        s += 1;')
         emit('    }')
     side['final_line'] = emit('    println!("sum={:016x}", sum);')
-    emit(f'    std::process::exit({rng.choice([0, 0, 3, 7])});')
+    code = rng.choice([0, 0, 3, 7]) if exit_code is None else exit_code
+    side['exit_code'] = 101 if panic_exit else code
+    if panic_exit:
+        emit('    if sum != 1 { panic!("generated panic exit"); }')
+    emit(f'    std::process::exit({code});')
     emit('}')
     return '\n'.join(lines) + '\n', side
